@@ -326,6 +326,12 @@ func checkC04(e *Engine, r *Report) {
 			}
 		}
 	})
+
+	r.Rule("R5", "MUST-PASS", "an Ethereum message is executed only after the Ethereum lane deducted its fee: the refund credit is keyed on a flag that is reset only by the Ethereum lane, so a MsgEthereumTx smuggled through the Cosmos lane (nested in MsgExec behind another MsgExec) would be refunded gas it never paid for — the authz screen inspects every message (shared with C07-R4 / C06-R7)", 1, func() {
+		ok, why := authzScreenInspectsAll(e)
+		fn := e.Fn(pkgCosmoLane, "CLRejectAuthzMsgsDecorator.checkDisabledMsgs")
+		r.Check(ok, "992c › nested Ethereum messages screened", e.Pos(fn.Pos()), "checkDisabledMsgs inspects every message and recurses into MsgExec", why+" — a nested MsgEthereumTx executes without fee deduction while a stale paid-fee flag makes refundGas mint (gasLimit − gasUsed) × price")
+	})
 }
 
 func constStringVal2(e *Engine, pkg, name string) string {
